@@ -197,6 +197,7 @@ func positiveReason(r string) bool {
 		"not with the variable GPPP_AES_KEY",         // another key variable was seen
 		"GPP uses 16 zero bytes",                     // a constant non-zero iv
 		"AES-CBC needs 16",                           // a constant pad size other than 16
+		"shared by every call",                       // a stateful object loaded from a package-level variable
 	} {
 		if strings.Contains(r, s) {
 			return true
